@@ -1,10 +1,13 @@
 package webrtc
 
 import (
+	"context"
 	"crypto/ed25519"
 
 	"github.com/aperturerobotics/bifrost/crypto"
 	"github.com/aperturerobotics/bifrost/peer"
+	"github.com/pion/datachannel"
+	"github.com/sirupsen/logrus"
 	rt "github.com/aperturerobotics/bifrost/zz_verifrt"
 )
 
@@ -75,6 +78,37 @@ func VerifC26RoundTrip() {
 		got, err := DecodeWebRtcSignal(garbage, priv)
 		rt.Assert("arbitrary payload is refused", err != nil && got == nil)
 		rt.Reach("garbage")
+	}
+	rt.Reach("end")
+}
+
+type c26DC struct {
+	datachannel.ReadWriteCloser
+	closed int
+}
+
+func (d *c26DC) Close() error { d.closed++; return nil }
+
+// VerifC26LinkPeer: when the data channel of a session with peer P opens, the QUIC handshake run over
+// it — listening on the offerer side, dialing on the answerer side — is bound to P: the expected-peer
+// argument is exactly the session's peer id and never empty.
+func VerifC26LinkPeer() {
+	local := peer.ID(rt.String("local", 1, 2))
+	remote := peer.ID(rt.String("remote", 1, 2))
+	rt.Assume(local != remote)
+	w := &WebRTC{peerID: local, conf: &Config{}, le: logrus.NewEntry(logrus.New())}
+	offerer := isOfferer(local.String(), remote.String())
+	s := &sessionTracker{w: w, le: w.le, key: remote.String(), peerID: remote, offerer: offerer}
+	err := s.executeLink(context.Background(), &c26DC{})
+	rt.Assert("without a handshake no link is made", err != nil)
+	rt.Assert("exactly one handshake is attempted", len(rt.QuicSessionCalls) == 1)
+	if len(rt.QuicSessionCalls) == 1 {
+		c := rt.QuicSessionCalls[0]
+		rt.Assert("the handshake is bound to the session's peer", c.RPeer == remote && c.RPeer != "")
+		rt.Assert("the offerer listens and the answerer dials", c.Dial == !offerer)
+		if c.Dial {
+			rt.Assert("the dial addresses the session's peer", c.Addr != nil && c.Addr.String() == peer.NewNetAddr(remote).String())
+		}
 	}
 	rt.Reach("end")
 }
